@@ -5,6 +5,7 @@ package runner
 
 import (
 	"encoding/hex"
+	"encoding/json"
 	"errors"
 	"fmt"
 	"io"
@@ -253,6 +254,7 @@ func (x *Exec) emit(e sim.Ev) {
 		def("quit", "")
 		def("filters", []any{})
 	case "ret":
+		def("bo", "")
 		def("tag", 0)
 		def("level", 0)
 		def("failed", []any{})
@@ -353,7 +355,14 @@ func Run(b *Behaviour) (events []sim.Ev) {
 		old = mqtt.VerifSetReadBufSize(b.Cfg.ReadBuf)
 		defer mqtt.VerifSetReadBufSize(old)
 	}
-	x.emit(sim.Ev{"e": "begin", "id": b.ID, "amax": b.Cfg.AMax, "emax": b.Cfg.EMax, "clean": b.Cfg.Clean, "readbuf": b.Cfg.ReadBuf})
+	// the limits as documented: negative values and values above 16384 mean 16384
+	norm := func(n int) int {
+		if n < 0 || n > 16384 {
+			return 16384
+		}
+		return n
+	}
+	x.emit(sim.Ev{"e": "begin", "id": b.ID, "amax": norm(b.Cfg.AMax), "emax": norm(b.Cfg.EMax), "clean": b.Cfg.Clean, "readbuf": b.Cfg.ReadBuf})
 	x.gated.Store(len(b.Steps) > 0 || b.Random != nil)
 	if !x.gated.Load() {
 		x.W.S.Free()
@@ -483,15 +492,26 @@ func (x *Exec) reader(name string, c *mqtt.Client, gen int, spec ProcSpec) {
 				"len": len(all), "tag": codec.TagOf(all), "sum": fnv(all), "topic": big.Topic})
 		}
 		if errors.Is(err, mqtt.ErrClosed) {
+			x.emit(sim.Ev{"e": "backoff", "p": name, "nil": c.ReadBackoff(err) == nil, "late": false, "closed": true, "ms": 0})
 			return
+		}
+		if err != nil && big == nil {
+			// ReadBackoff: a channel that closes within the configured bounds (the only wall-clock measurement:
+			// the upper bound is taken with 300 ms of slack for a loaded machine)
+			cfg := x.config()
+			t0 := time.Now()
+			ch := c.ReadBackoff(err)
+			late := false
+			select {
+			case <-ch:
+			case <-time.After(cfg.ReconnectWaitMax + 300*time.Millisecond):
+				late = true
+			}
+			x.emit(sim.Ev{"e": "backoff", "p": name, "nil": ch == nil, "late": late, "closed": false, "ms": int(time.Since(t0) / time.Millisecond)})
 		}
 		if err != nil && big == nil && x.W.S.IsFree() {
 			fails++
 			lastErr = errMsg(err)
-			select {
-			case <-c.ReadBackoff(err):
-			case <-time.After(20 * time.Millisecond):
-			}
 		} else {
 			fails = 0
 		}
@@ -588,6 +608,12 @@ func (x *Exec) script(name string, c *mqtt.Client, gen int, spec ProcSpec) {
 		var se mqtt.SubscribeError
 		if errors.As(err, &se) {
 			e["failed"] = strs([]string(se))
+		}
+		if err != nil {
+			e["bo"] = "chan"
+			if c.Backoff(err) == nil {
+				e["bo"] = "nil"
+			}
 		}
 		if level > 0 && err == nil {
 			x.mu.Lock()
@@ -808,11 +834,17 @@ func (x *Exec) envStep(i int, st *Step) bool {
 	case "damage":
 		ev["key"], ev["how"] = int(st.Key), st.How
 	case "adopt", "start":
-		ev["start"] = st.Start
+		if st.Start != nil {
+			ev["start"] = noNull(st.Start)
+		}
 	case "inject":
-		ev["in"] = st.In
+		if st.In != nil {
+			ev["in"] = noNull(st.In)
+		}
 	case "hostile":
-		ev["host"] = st.Host
+		if st.Host != nil {
+			ev["host"] = noNull(st.Host)
+		}
 	case "quit":
 		ev["p"] = st.P
 	}
@@ -903,6 +935,37 @@ func (x *Exec) envStep(i int, st *Step) bool {
 	}
 	x.sampleSignals()
 	return true
+}
+
+// noNull renders a value as plain JSON data without null (TLC's Json module rejects null).
+func noNull(v any) any {
+	b, err := json.Marshal(v)
+	if err != nil {
+		return ""
+	}
+	var r any
+	if json.Unmarshal(b, &r) != nil {
+		return ""
+	}
+	var walk func(any) any
+	walk = func(x any) any {
+		switch t := x.(type) {
+		case nil:
+			return []any{}
+		case map[string]any:
+			for k, e := range t {
+				t[k] = walk(e)
+			}
+			return t
+		case []any:
+			for i, e := range t {
+				t[i] = walk(e)
+			}
+			return t
+		}
+		return x
+	}
+	return walk(r)
 }
 
 func (x *Exec) keys() []any {
